@@ -31,7 +31,47 @@ func runC15(e *Env) {
 	var keep []*connection
 	var peers []int
 	for i := 0; i < nsteps; i++ {
-		switch e.Intn(7) {
+		switch e.Intn(9) {
+		case 7, 8:
+			// a dial whose connect succeeds and whose registration with the poller then fails
+			// (unix: the connect is immediate; TCP: the first registration, for the connect itself, passes)
+			pollmanager.Pick()
+			var c Connection
+			var err error
+			if e.Bool() {
+				path := fmt.Sprintf("/tmp/simnp-%d-c15r%d.sock", syscall.Getpid(), i)
+				syscall.Unlink(path)
+				e.tmpPaths = append(e.tmpPaths, path)
+				lfd, lerr := vsys.HListenUnix(path, 8)
+				if lerr != nil {
+					panic("harness: listen: " + lerr.Error())
+				}
+				vsys.K.EpollCtlAddFail = 256
+				c, err = DialConnection("unix", path, time.Duration(e.Pick(0, 10))*time.Millisecond)
+				vsys.K.EpollCtlAddFail = 0
+				if vsys.HReadable(lfd) {
+					if pfd, aerr := vsys.HAccept(lfd); aerr == nil {
+						vsys.HClose(pfd)
+					}
+				}
+				vsys.HClose(lfd)
+				desc = append(desc, fmt.Sprintf("dial-unix-register-fail=%v", err != nil))
+			} else {
+				port := 6000 + i
+				vl := vsys.VListen(port, vsys.VAccept, int64(e.Pick(0, 100))*1000)
+				vsys.K.EpollCtlAddFail, vsys.K.EpollCtlAddSkip = 256, 1
+				c, err = DialConnection("tcp", fmt.Sprintf("127.0.0.1:%d", port), time.Duration(e.Pick(0, 50))*time.Millisecond)
+				vsys.K.EpollCtlAddFail, vsys.K.EpollCtlAddSkip = 0, 0
+				if vsys.HReadable(vl.LFD) {
+					if pfd, aerr := vsys.HAccept(vl.LFD); aerr == nil {
+						vsys.HClose(pfd)
+					}
+				}
+				desc = append(desc, fmt.Sprintf("dial-tcp-register-fail=%v", err != nil))
+			}
+			if err == nil && !isNilConn(c) {
+				c.Close() // the fault did not hit (registration was not needed): an ordinary connection
+			}
 		case 0:
 			// dial a path nobody listens on
 			path := fmt.Sprintf("/tmp/simnp-%d-absent.sock", syscall.Getpid())
